@@ -199,11 +199,16 @@ impl Constraints {
             } else {
                 // Wrap-around case: the arc starts at `from` and runs in the positive
                 // direction till `to` (modulo full turn). from == to means unconstrained.
-                let mut range_length = (to - from).rem_euclid(2.0 * PI);
-                if range_length == 0.0 {
-                    range_length = 2.0 * PI;
+                let range_length = if from == to {
+                    2.0 * PI
+                } else {
+                    (to - from).rem_euclid(2.0 * PI)
+                };
+                if range_length > 0.0 {
+                    from + rng.gen_range(0.0..range_length)
+                } else {
+                    from // from and to are whole turns apart: the only allowed angle
                 }
-                from + rng.gen_range(0.0..range_length)
             };
             random_angle
         }
